@@ -59,7 +59,9 @@ func (s *ASpec) Raw() *core.Spec {
 	for name, an := range s.Nodes {
 		n := &core.Node{}
 		if an.Action != nil {
-			if an.Action.Native {
+			if an.Action.Native && an.Action.ViaSource {
+				n.ActionSource = an.Action.NativeSource()
+			} else if an.Action.Native {
 				n.Action = an.Action.NativeAction()
 			} else {
 				n.ActionSource = an.Action.Source()
@@ -73,7 +75,9 @@ func (s *ASpec) Raw() *core.Spec {
 					b.Pattern = clone(ab.Pattern)
 				}
 				if ab.Guard != nil {
-					if ab.Guard.Native {
+					if ab.Guard.Native && ab.Guard.ViaSource {
+						b.GuardSource = ab.Guard.NativeSource()
+					} else if ab.Guard.Native {
 						b.Guard = ab.Guard.NativeAction()
 					} else {
 						b.GuardSource = ab.Guard.Source()
